@@ -22,8 +22,9 @@ func init() {
 				"C16.keys (dbSetX and dbGetX build their key with the same key function; every key function is used by a writer and a reader; integer components are zero-padded to >= 9 digits so that key order is numeric order), " +
 				"C16.topo (the topological listing has no gaps: InsertEvent consumes a topological index only after Store.SetEvent stored the event under it; dbSetEvents writes the key of exactly that index; Bootstrap reads consecutive keys), " +
 				"C16.fields (every field of a persisted type is serialised by its codec — exported, untagged — or is a listed cache that is recomputed; on the pinned tree RoundInfo.decided / queued are neither: known finding F-C16-2), C16.codec (dbSetX marshals with T.Marshal[DB] and dbGetX unmarshals with the matching T.Unmarshal[DB] of the same type), C16.sibling (thorough: the mobile store equals badger_store.go modulo the import path). " +
+				"C16.commit (every success return of a dbSet* writer is reached after its transaction committed — no \"unchanged, skip the write\" shortcut on a memoised hash; shared with C11.commit). " +
 				"NOT decided: behaviour after eviction and reopen as a value-level map model; durability; the five dropped store errors reported by errcheck in hashgraph (read one by one: none loses persisted content on this property's paths)."},
-		Rules:    []ruleFunc{c16readthrough, c16writethrough, c16keys, c16codec, func(p *Prog, r *Report) { topoRule(p, r, "C16.topo") }, c16fields, c16lru, func(p *Prog, r *Report) { keyArgRule(p, r, "C16.keyarg") }, func(p *Prog, r *Report) { replayRule(p, r, "C16.replay") }, c16errs, c16roll, c16dbguard},
+		Rules:    []ruleFunc{c16readthrough, c16writethrough, c16keys, c16codec, func(p *Prog, r *Report) { topoRule(p, r, "C16.topo") }, c16fields, c16lru, func(p *Prog, r *Report) { keyArgRule(p, r, "C16.keyarg") }, func(p *Prog, r *Report) { replayRule(p, r, "C16.replay") }, c16errs, c16roll, c16dbguard, func(p *Prog, r *Report) { commitRule(p, r, "C16.commit") }},
 		Thorough: []ruleFunc{siblingRule("C16.sibling")},
 	})
 }
